@@ -42,13 +42,16 @@ Theorem C04_dup_con_reanswered : forall s0 m evs dup, Inv s0 ->
   let s1 := step s0 (Recv m) in let s2 := run s1 evs in
   now s2 < now s0 + EXCHANGE_LIFETIME ->
   is_request (i_code dup) = true -> msg_key dup = msg_key m ->
+  is_refused (i_remote dup) s2 = false ->   (* else the transport's refusal of the repeated reply additionally ends the
+                                               exchanges with that remote (mm_dispatch_error); see C04_event_frame *)
   step s2 (Recv dup) =
   set_outs (outs s2 ++ match i_type dup, last_reply (msg_key m) (log_since s0 s2) None with
                        | CON, Some (r, w) => [Send (now s2) r w]
                        | _, _ => [] end) s2.
 Proof. exact dup_con_reanswered_lemma. Qed.
 Print Assumptions C04_dup_con_reanswered.
-(* ... and that reply is an ACK or RST that was really sent to this endpoint under this message id *)
+(* ... and that reply is an ACK or RST that was handed to the transport for this endpoint under this message id
+   ([Send] = message_interface.send was called; a refusing transport additionally logs [Refused]) *)
 Theorem C04_repeated_reply_was_sent : forall k l r w, last_reply k l None = Some (r, w) ->
   r = fst k /\ w_mid w = snd k /\ is_ackrst (w_type w) = true /\ exists t, In (Send t r w) l.
 Proof. exact last_reply_sent. Qed.
@@ -90,6 +93,29 @@ Theorem C04_expiry_exact : forall k evs s D q, Inv s -> In (D, q, k) (forgets s)
   \/ (aget key_eqb k (recent s2) = None /\ D <= now s2).
 Proof. exact expiry_exact_lemma. Qed.
 Print Assumptions C04_expiry_exact.
+(* (b') with copies in the history: inside the lifetime the key has exactly one expiry timer, the one armed at the first
+       arrival — copies neither extend nor shorten the lifetime; *)
+Theorem C04_expiry_fixed_at_first_arrival : forall s0 m evs, Inv s0 ->
+  is_request (i_code m) = true -> aget key_eqb (msg_key m) (recent s0) = None ->
+  let s2 := run (step s0 (Recv m)) evs in
+  now s2 < now s0 + EXCHANGE_LIFETIME ->
+  exists q, In (now s0 + EXCHANGE_LIFETIME, q, msg_key m) (forgets s2)
+    /\ forall D' q', In (D', q', msg_key m) (forgets s2) -> D' = now s0 + EXCHANGE_LIFETIME.
+Proof. exact expiry_fixed_at_first_arrival_lemma. Qed.
+Print Assumptions C04_expiry_fixed_at_first_arrival.
+(* (b'') after ANY history inside the lifetime (evs1, copies included), once the clock has passed first arrival +
+       EXCHANGE_LIFETIME without a further arrival of the key in between (evs2), the identifier is forgotten; by (c) the
+       next copy is then processed as a new request *)
+Theorem C04_forgotten_after_lifetime : forall s0 m evs1 evs2, Inv s0 ->
+  is_request (i_code m) = true -> aget key_eqb (msg_key m) (recent s0) = None ->
+  let s2 := run (step s0 (Recv m)) evs1 in
+  now s2 < now s0 + EXCHANGE_LIFETIME ->
+  Forall (no_arrival (msg_key m)) evs2 ->
+  let s3 := run s2 evs2 in
+  now s0 + EXCHANGE_LIFETIME < now s3 ->
+  aget key_eqb (msg_key m) (recent s3) = None.
+Proof. exact forgotten_after_lifetime_lemma. Qed.
+Print Assumptions C04_forgotten_after_lifetime.
 (* (c) a request-coded message whose key is unknown — never seen, seen from another endpoint only, or forgotten —
        is remembered for EXCHANGE_LIFETIME from now and, if CON or NON, handed to the application exactly once now *)
 Theorem C04_unknown_key_is_executed : forall s m, Inv s ->
@@ -107,6 +133,26 @@ Print Assumptions C04_unknown_key_is_executed.
 Theorem C04_other_keys_untouched : forall s m k, Inv s -> msg_key m <> k -> R k s (step s (Recv m)).
 Proof. exact other_keys_untouched_lemma. Qed.
 Print Assumptions C04_other_keys_untouched.
+(* sharper for datagrams: one with another key never removes or resets k's entry nor its expiry timer *)
+Theorem C04_other_keys_keep_entry : forall s m k v, Inv s -> msg_key m <> k ->
+  aget key_eqb k (recent s) = Some v ->
+  exists new, outs (step s (Recv m)) = outs s ++ new /\ starts k new = [] /\
+    aget key_eqb k (recent (step s (Recv m))) = Some (last_reply k new v) /\
+    forall D q, In (D, q, k) (forgets s) -> In (D, q, k) (forgets (step s (Recv m))).
+Proof. exact other_keys_keep_entry_lemma. Qed.
+Print Assumptions C04_other_keys_keep_entry.
+(* a key of which no request-coded datagram arrives stays unknown and is never started, whatever other endpoints do with
+   the same message id — so the hypothesis of C04_unknown_key_is_executed holds for (r2, mid) while (r1, mid) is live *)
+Theorem C04_not_arrived_stays_unknown : forall k evs s, Inv s -> aget key_eqb k (recent s) = None ->
+  Forall (no_arrival k) evs ->
+  aget key_eqb k (recent (run s evs)) = None /\ starts k (log_since s (run s evs)) = [].
+Proof. exact not_arrived_stays_unknown_lemma. Qed.
+Print Assumptions C04_not_arrived_stays_unknown.
+(* every event (timer, clock, handler answer or failure, transport refusal or error, datagram) that is not a first arrival
+   of k: relation R (no Start for k; entry follows the ACK/RSTs sent under k, or is removed with its timer due) *)
+Theorem C04_event_frame : forall s e k, Inv s -> ~ fresh_for k s e -> R k s (step s e).
+Proof. exact event_frame_lemma. Qed.
+Print Assumptions C04_event_frame.
 
 (* ------------------------------------------------------------------ non-vacuity *)
 Definition req (r : Z) (t : mtype) (mid : Z) (tok : list Z) (p : hkind) : inmsg :=
@@ -158,3 +204,17 @@ Example C04_impolite_peer_gets_rst :
      Send 0 0 {| w_type := RST; w_code := 0; w_mid := 7; w_token := []; w_payload := [] |};
      Send 0 0 {| w_type := RST; w_code := 0; w_mid := 7; w_token := []; w_payload := [] |}].
 Proof. split; vm_compute; reflexivity. Qed.
+
+(* a transport that refuses the datagrams to a peer (udp6 sendmsg failing) reports it from inside send(): the attempt is
+   logged, the exchange and backlog of that peer end; copies are still not executed again and get the remembered ACK
+   offered to the transport again *)
+Example C04_refusing_transport :
+  outs (run (init 7 2000000)
+         [Recv (req 0 CON 7 [1] HSlow); Advance 100000; Refuse 0 true;
+          Respond 0 {| a_code := 69; a_payload := [170]; a_nr := None; a_rel := None |};
+          Recv (req 0 CON 7 [1] HSlow); Advance 10000000; Refuse 0 false; Recv (req 0 CON 7 [1] HSlow)]) =
+    [Start 0 0 0 7 [1]; Send 100000 0 (ack 7 0 [] []);
+     Send 100000 0 {| w_type := CON; w_code := 69; w_mid := 7; w_token := [1]; w_payload := [170] |}; Refused 100000 0;
+     Send 100000 0 (ack 7 0 [] []); Refused 100000 0;
+     Send 10100000 0 (ack 7 0 [] [])].
+Proof. vm_compute. reflexivity. Qed.
